@@ -7,7 +7,7 @@ import typing
 
 from vf import netsim, wire
 
-CODINGS = ["identity", "gzip", "gzip2", "deflate", "rawdeflate", "zstd", "zstdmb", "zstd2", "gzip+deflate", "deflate+gzip", "zstd+gzip", "x-gzip", "unknown"]
+CODINGS = ["identity", "gzip", "gzip2", "deflate", "rawdeflate", "zstd", "zstdmb", "zstd2", "gzip+deflate", "deflate+gzip", "zstd+gzip", "gzip+zstd", "x-gzip", "unknown"]
 DECODABLE = set(CODINGS) - {"unknown", "identity"}
 
 
